@@ -325,11 +325,12 @@ const (
 	tNoNull    // value type whose pointer-receiver UnmarshalJSON rejects null (felt.Felt-like), otherwise an int
 	tMapStruct // map[string]valStruct (by-value validated structs)
 	tReqStruct // struct{Name string `validate:"required"`} by value
+	tStrs      // []string
 )
 
 var ptypeNames = map[ptype]string{tInt: "int", tStr: "string", tBool: "bool", tPtrInt: "*int", tPtrStr: "*string", tInts: "[]int",
 	tStruct: "struct(min=1)", tPtrStruct: "*struct", tStructs: "[]struct", tMapPtr: "map[string]*struct", tRaw: "json.RawMessage",
-	tNoNull: "null-rejecting-unmarshaler", tMapStruct: "map[string]struct", tReqStruct: "struct(required)"}
+	tNoNull: "null-rejecting-unmarshaler", tMapStruct: "map[string]struct", tReqStruct: "struct(required)", tStrs: "[]string"}
 
 type pspec struct {
 	name string
@@ -356,6 +357,8 @@ type mspec struct {
 	params []pspec
 	eval   func(a []argv) outcome
 	shape  string // binding shape covered (for labels)
+	ctx    bool   // the handler takes a leading context.Context
+	matrix bool   // member of the generated signature matrix (handler built by reflection from this spec)
 }
 
 func (m *mspec) required() int {
@@ -374,16 +377,16 @@ func okRes(s string) outcome { return outcome{res: s} }
 
 const uniName = "uni✓ \"q\"\n"
 
-var methodSpecs = []*mspec{
+var baseSpecs = []*mspec{
 	{name: "noParams", shape: "no-params", eval: func(a []argv) outcome { return okRes("0") }},
-	{name: "ctxOnly", shape: "ctx-only", eval: func(a []argv) outcome { return okRes(`""`) }},
+	{name: "ctxOnly", shape: "ctx-only", ctx: true, eval: func(a []argv) outcome { return okRes(`""`) }},
 	{name: "sub", shape: "required-only", params: []pspec{{"minuend", false, tInt}, {"subtrahend", false, tInt}},
 		eval: func(a []argv) outcome { return okRes(strconv.FormatInt(a[0].i-a[1].i, 10)) }},
 	{name: "opt", shape: "optional-tail", params: []pspec{{"a", false, tInt}, {"b", true, tPtrInt}, {"c", true, tInts}},
 		eval: func(a []argv) outcome {
 			return okRes(`{"a":` + a[0].canon + `,"b":` + a[1].canon + `,"c":` + a[2].canon + `}`)
 		}},
-	{name: "ctxTwo", shape: "ctx-first", params: []pspec{{"s", false, tStr}, {"f", false, tBool}},
+	{name: "ctxTwo", shape: "ctx-first", ctx: true, params: []pspec{{"s", false, tStr}, {"f", false, tBool}},
 		eval: func(a []argv) outcome { return okRes("[" + a[0].canon + "," + a[1].canon + "]") }},
 	{name: "val", shape: "struct-validated", params: []pspec{{"v", false, tStruct}},
 		eval: func(a []argv) outcome { return okRes(strconv.FormatInt(a[0].i, 10)) }},
@@ -423,6 +426,73 @@ var methodSpecs = []*mspec{
 	{name: "req", shape: "struct-required-tag", params: []pspec{{"r", false, tReqStruct}},
 		eval: func(a []argv) outcome { return okRes(a[0].canon) }},
 }
+
+// ---------------------------------------------------------------- signature matrix
+//
+// The handler signature space the server accepts, spelled out independently of server.go: an optional leading
+// context.Context, 0-4 declared parameters of which a prefix is required and the tail optional (the only layout in
+// which "by position" is defined), each parameter of any of the palette's Go types. A matrix method returns the
+// array of the arguments it received, so its specification is: bind the supplied arguments by position or by
+// name, give every optional parameter that was not supplied the zero value of ITS OWN type - whatever the types
+// of its neighbours, with or without a context - and answer the array of the bound values.
+
+var matrixPalette = []ptype{tInt, tStrs, tPtrStr, tStruct, tNoNull, tStr, tInts, tBool, tPtrInt, tRaw, tPtrStruct, tStructs, tMapPtr,
+	tMapStruct, tReqStruct}
+
+var ptypeCodes = map[ptype]string{tInt: "int", tStr: "str", tBool: "bool", tPtrInt: "pint", tPtrStr: "pstr", tInts: "ints", tStrs: "strs",
+	tStruct: "st", tPtrStruct: "pst", tStructs: "sts", tMapPtr: "mpst", tRaw: "raw", tNoNull: "nn", tMapStruct: "mst", tReqStruct: "rst"}
+
+const maxMatrixParams = 4
+
+// matrixSpec is the specification of the matrix method with the given signature (the first req parameters required).
+func matrixSpec(ctx bool, types []ptype, req int) *mspec {
+	sp := &mspec{name: "mx", shape: "matrix-plain", ctx: ctx, matrix: true}
+	if ctx {
+		sp.name, sp.shape = "mxC", "matrix-ctx"
+	}
+	for i, t := range types {
+		sp.name += "_" + ptypeCodes[t]
+		if i >= req {
+			sp.name += "?"
+		}
+		sp.params = append(sp.params, pspec{name: string(rune('a' + i)), opt: i >= req, t: t})
+	}
+	sp.eval = func(a []argv) outcome {
+		parts := make([]string, len(a))
+		for i, x := range a {
+			parts[i] = x.canon
+		}
+		return okRes("[" + strings.Join(parts, ",") + "]")
+	}
+	return sp
+}
+
+// fixedMatrix is the part of the matrix registered on every harness server, so that every generator of the package
+// reaches it: for every parameter count 1-4 and every required/optional split, two type assignments in which all
+// parameters have pairwise different types (a stride walk over the palette), each with and without a context.
+// (Parameter count 0 is covered by noParams / ctxOnly.) The rest of the space is drawn in TestPropSignatureMatrix.
+func fixedMatrix() []*mspec {
+	var out []*mspec
+	cnt := 0
+	for n := 1; n <= maxMatrixParams; n++ {
+		for req := 0; req <= n; req++ {
+			for v := 0; v < 2; v++ {
+				step := []int{1, 2, 4}[cnt%3]
+				types := make([]ptype, n)
+				for i := range types {
+					types[i] = matrixPalette[(cnt*7+i*step)%len(matrixPalette)]
+				}
+				cnt++
+				out = append(out, matrixSpec(false, types, req), matrixSpec(true, types, req))
+			}
+		}
+	}
+	return out
+}
+
+var methodSpecs = append(append([]*mspec{}, baseSpecs...), fixedMatrix()...)
+
+var matrixSpecs = methodSpecs[len(baseSpecs):]
 
 var specByName = func() map[string]*mspec {
 	m := map[string]*mspec{}
@@ -599,6 +669,22 @@ func check(t ptype, v *jv) (argv, status) {
 			return argv{}, st
 		}
 		return argv{canon: "[" + strings.Join(parts, ",") + "]", n: len(parts)}, stOK
+	case tStrs:
+		if v.k == 'n' {
+			return argv{canon: "null"}, stOK
+		}
+		if v.k != 'a' {
+			return argv{}, stBad
+		}
+		parts := make([]string, len(v.a))
+		for i, e := range v.a {
+			x, s := check(tStr, e) // a null element leaves ""
+			if s != stOK {
+				return argv{}, s
+			}
+			parts[i] = x.canon
+		}
+		return argv{canon: "[" + strings.Join(parts, ",") + "]", n: len(parts)}, stOK
 	case tStruct:
 		return checkStruct(v)
 	case tPtrStruct:
@@ -761,7 +847,7 @@ func nullNote(ex *expectation, t ptype, v *jv, s status) {
 		how = "null->rejected-by-unmarshaler(-32602)"
 	case s == stBad:
 		how = "null->zero-fails-validator(-32602)"
-	case t == tPtrInt || t == tPtrStr || t == tInts || t == tPtrStruct || t == tStructs || t == tMapPtr || t == tMapStruct || t == tRaw:
+	case t == tPtrInt || t == tPtrStr || t == tInts || t == tStrs || t == tPtrStruct || t == tStructs || t == tMapPtr || t == tMapStruct || t == tRaw:
 		how = "null->nil(invoked)"
 	}
 	if ex.nulls == nil {
@@ -883,6 +969,15 @@ func keyErr(id string, code int64, data string) string {
 
 type model struct {
 	known func(string) bool // relax the oracle for these classes (the deviation is listed as a known finding)
+	extra map[string]*mspec // methods registered on this model's server besides the fixed table (drawn signatures)
+}
+
+func (m *model) lookup(name string) (*mspec, bool) {
+	if sp, ok := specByName[name]; ok {
+		return sp, true
+	}
+	sp, ok := m.extra[name]
+	return sp, ok
 }
 
 var envelopeNames = []string{"jsonrpc", "method", "params", "id"}
@@ -964,7 +1059,7 @@ func (m *model) entry(v *jv, single bool, ex *expectation) entryExp {
 	if params != nil && params.k != 'n' {
 		p = params
 	}
-	sp, found := specByName[meth.s]
+	sp, found := m.lookup(meth.s)
 	switch {
 	case !found:
 		out = outcome{isErr: true, code: -32601}
